@@ -514,7 +514,7 @@ def cases(tier, seed):
     out = []
     k = 0
     kinds = ["plain", "overlap", "mixed", "loopback", "manual", "held"]
-    for rep in range(3 if q else 15):
+    for rep in range(2 if q else 15):
         for di, div in enumerate(DIVS if q else DIVS + [64, 255][:1 + rep % 2]):
             for ki, kind in enumerate(kinds):
                 rr = rng_for(seed, "C19/spi", rep, div, kind)
